@@ -181,8 +181,9 @@ def _anchor_coverage(prop, seen):
         if sm is not None:
             out["anchors"].append(sm)
     try:
-        os.makedirs(os.path.join(HERE, "covdata"), exist_ok=True)
-        with open(os.path.join(HERE, "covdata", prop + ".json"), "w") as f:
+        cdir = os.path.join(HERE, "covdata") if repo == "/repo" else os.path.join(HERE, "evidence_scratch", os.path.basename(repo), "covdata")
+        os.makedirs(cdir, exist_ok=True)
+        with open(os.path.join(cdir, prop + ".json"), "w") as f:
             json.dump({k: sorted(v) for k, v in sorted(seen.items())}, f)
     except OSError:
         pass
